@@ -1,5 +1,5 @@
 import Pcore.Props.C08
-open Pcore.Coll
+open Pcore.Heap
 #print axioms C08_idioms_safe
 #print axioms C08_refine
 #print axioms C08_stable
